@@ -55,8 +55,9 @@ type c12Harness struct {
 	now     time.Time
 	maxRecv int
 	// model
-	waiting []string // peers that accepted and wait for a slot, in accept order
-	started map[int]bool
+	waiting   []string // peers that accepted and wait for a slot, in accept order
+	started   map[int]bool
+	unsettled int
 }
 
 func newC12Harness(maxRecv int) *c12Harness {
@@ -199,7 +200,16 @@ func (h *c12Harness) apply(e c12Event) string {
 
 // check verifies the invariants after an event; returns signature and detail.
 func (h *c12Harness) check(e c12Event) (string, string) {
-	settled := h.settle()
+	settled := false
+	for i := 0; i < 12 && !settled; i++ { // up to ~6 s under heavy load
+		settled = h.settle()
+	}
+	if !settled {
+		// no verdict from a state that has not come to rest (slow machine): the invariants below
+		// compare the model with what the sender has done *so far*
+		h.unsettled++
+		return "", ""
+	}
 	live, alive := h.live()
 	if len(alive) > h.maxRecv {
 		var ps []string
@@ -373,6 +383,10 @@ func c12Run(maxRecv int, evs []c12Event) (sig, detail string, stats map[string]i
 		if s, d := h.check(e); s != "" {
 			return s, fmt.Sprintf("%s | max-receivers=%d after events: %s", d, maxRecv, strings.Join(done, " ")), stats
 		}
+		if h.unsettled > 0 {
+			stats["unsettled"] = h.unsettled
+			return "", "", stats // the model may be out of step from here on: stop judging this sequence
+		}
 	}
 	return "", "", stats
 }
@@ -413,6 +427,9 @@ func TestVerifC12Random(t *testing.T) {
 		}
 		if stats["cancelled-instance-returns"] > 0 {
 			rec.Class("cancelled-instance-returns")
+		}
+		if stats["unsettled"] > 0 {
+			rec.Class("sequence-abandoned-not-quiescent")
 		}
 		if rec.SampleWanted() && len(evs) > 8 {
 			var parts []string
